@@ -7,7 +7,9 @@ up in the generated table `Yaql.Gen.DateTimeDefs.defs`, so the model follows wha
 
 request: `{"p":"C20","host":<us>,"cases":[expr,...]}`; expr:
 `{"dt":[wall,off|null]}` | `{"ts":us}` | `{"i":n}` | `{"q":[n,d]}` | `{"f":name,"a":[expr..],"kw":[[name,expr]..]}`.
-reply: `{"r":[{"dt":[wall,off]}|{"ts":us}|{"i":n}|{"q":[n,d]}|{"b":bool}|{"err":class}, ...]}` -/
+reply: `{"r":[{"dt":[wall,off]}|{"ts":us}|{"i":n}|{"q":[n,d]}|{"fb":"<IEEE bits>"}|{"b":bool}|{"err":class}, ...]}`;
+float-valued results (unit properties, `.timestamp`, `ts / ts`) are the doubles the model computes (`fb`), a float
+consumed by an outer call is its exact rational value. -/
 namespace Yaql.Drv.C20
 open Lean Yaql.Drv Yaql.DateTime
 
@@ -15,6 +17,7 @@ inductive V where
   | dt (d : DT)
   | ts (t : Int)
   | num (n : Num)
+  | fl (w : UInt64)         -- a float result, IEEE bits
   | bool (b : Bool)
 deriving Repr, Inhabited
 
@@ -47,7 +50,16 @@ def cls2 (name : List Char) (sh : List Shape) : Option (PClass × PClass) :=
   | some [c1, c2] => some (c1, c2)
   | _ => none
 
-def ratV (p : Int × Int) : V := if p.2 < 0 then .num (.flt (-p.1) (-p.2)) else .num (.flt p.1 p.2)
+/-- a float result that is consumed as a number: its exact rational value (`none`: inf / NaN, which the modelled
+    float-valued functions never return) -/
+def numOfBits (w : UInt64) : Option Num :=
+  match Yaql.FloatRound.decode w with
+  | .fin z => some (.flt z (Yaql.FloatRound.scale : Nat))
+  | _ => none
+
+def asNumArg : V → Except E V
+  | .fl w => match numOfBits w with | some n => .ok (.num n) | none => .error .noMatch
+  | v => .ok v
 
 def cmpOfName : String → Option CmpOp
   | "=" => some .eq | "!=" => some .ne | "<" => some .lt | "<=" => some .le | ">" => some .gt | ">=" => some .ge
@@ -95,10 +107,10 @@ def binop (host : Int) (o : String) (x y : V) : R :=
        | some (c1, c2) => liftE ((dtMinusDt c1 c2 a b).map V.ts) | none => .error .noMatch)
   | "+", .ts a, .ts b => liftE ((tsAdd a b).map V.ts)
   | "-", .ts a, .ts b => liftE ((tsSub a b).map V.ts)
-  | "*", .ts a, .num n => liftE ((tsMulNum a n).map V.ts)
-  | "*", .num n, .ts a => liftE ((tsMulNum a n).map V.ts)
-  | "/", .ts a, .num n => liftE ((tsDivNum a n).map V.ts)
-  | "/", .ts a, .ts b => liftE ((tsDivTs a b).map ratV)
+  | "*", .ts a, .num n => liftE ((tsMulNumF a n).map V.ts)
+  | "*", .num n, .ts a => liftE ((tsMulNumF a n).map V.ts)
+  | "/", .ts a, .num n => liftE ((tsDivNumF a n).map V.ts)
+  | "/", .ts a, .ts b => liftE ((tsDivTsF a b).map V.fl)
   | _, _, _ => .error .noMatch
 
 def kwGet (kw : List (String × V)) (k : String) : Option V := (kw.find? (·.1 == k)).map (·.2)
@@ -147,11 +159,11 @@ def call (host : Int) (f : String) (a : List V) (kw : List (String × V)) : R :=
         (← kwInt b "seconds" 0) (← kwInt b "milliseconds" 0) (← kwInt b "microseconds" 0)).map V.ts)
   | "utctz", [] => .ok (.ts 0)
   | "microseconds", [.ts t] => .ok (.num (.int (tsMicroseconds t)))
-  | "milliseconds", [.ts t] => .ok (ratV (tsMilliseconds t))
-  | "seconds", [.ts t] => .ok (ratV (tsSeconds t))
-  | "minutes", [.ts t] => .ok (ratV (tsMinutes t))
-  | "hours", [.ts t] => .ok (ratV (tsHours t))
-  | "days", [.ts t] => .ok (ratV (tsDays t))
+  | "milliseconds", [.ts t] => liftE ((tsMillisecondsF t).map V.fl)
+  | "seconds", [.ts t] => liftE ((tsSecondsF t).map V.fl)
+  | "minutes", [.ts t] => liftE ((tsMinutesF t).map V.fl)
+  | "hours", [.ts t] => liftE ((tsHoursF t).map V.fl)
+  | "days", [.ts t] => liftE ((tsDaysF t).map V.fl)
   | "neg", [.ts t] => liftE ((tsNeg t).map V.ts)
   | "pos", [.ts t] => liftE ((tsPos t).map V.ts)
   | "year", [.dt d] => .ok (.num (.int (dtYear d)))
@@ -170,7 +182,7 @@ def call (host : Int) (f : String) (a : List V) (kw : List (String × V)) : R :=
        | some c => liftE ((dtUtc c host d).map V.dt) | none => .error .noMatch)
   | "timestamp", [.dt d] =>
       (match cls1 (prop "timestamp".toList) [.dt] with
-       | some c => liftE ((dtTimestamp c host d).map ratV) | none => .error .noMatch)
+       | some c => liftE ((dtTimestampF c host d).map V.fl) | none => .error .noMatch)
   | "date", [.dt d] =>
       (match cls1 (prop "date".toList) [.dt] with
        | some c => liftE ((dtDate c d).map V.dt) | none => .error .noMatch)
@@ -202,6 +214,8 @@ mutual
     else if jhas j "f" then do
       let a ← evalList host (jarr j "a")
       let kw ← evalKw host (jarr j "kw")
+      let a ← a.mapM asNumArg
+      let kw ← kw.mapM fun p => (asNumArg p.2).map fun v => (p.1, v)
       call host (jstr j "f") a kw
     else .error (.bad "expr")
 
@@ -235,6 +249,7 @@ def outV : R → Json
   | .ok (.ts t) => jo [("ts", ji t)]
   | .ok (.num (.int n)) => jo [("i", ji n)]
   | .ok (.num (.flt n d)) => jo [("q", jl [ji n, ji d])]
+  | .ok (.fl w) => jo [("fb", js (toString w.toNat))]
   | .ok (.bool b) => jo [("b", jb b)]
   | .error (.py e) => jo [("err", js (errName e))]
   | .error .noMatch => jo [("err", js "NoMatchingFunctionException")]
